@@ -11,6 +11,7 @@ CONSTANTS
   WithClose = TRUE
   WithDrop = TRUE
   AtomicSend = TRUE
+  DropReads = FALSE
   SerialCloseDrop = TRUE
 INVARIANTS TypeOK NoPanic
 PROPERTIES CommitsReturn CloseCompletes DropCompletes
